@@ -323,6 +323,19 @@ def admin_fail(op, impl, prev_b):
         if k != tkey and eb.get(k) != ea.get(k):
             return "admin-frame", "%s on topic %r changed topic %r" % (unhex(w[3]).decode(), t, bytes.fromhex(k))
     path = unhex(w[3])
+    # named effect of pause / unpause: the flag of the named object is what the PATH says
+    if path in (b"/topic/pause", b"/topic/unpause") and tkey in ea:
+        flag = ea[tkey].split(":")[1]
+        if flag != ("1" if path == b"/topic/pause" else "0"):
+            return "pause-effect", "%s?%s answered 200 and left the topic's pause flag at %s" % (
+                path.decode(), unhex(w[4]).decode("latin1"), flag)
+    if path in (b"/channel/pause", b"/channel/unpause") and tkey in ea:
+        c = q.get("channel", [None])[0]
+        for e in ([] if ea[tkey].split(":")[4] == "-" else ea[tkey].split(":")[4].split("+")):
+            g = e.split(";")
+            if c is not None and g[0] == (c.encode("latin1").hex() or "-") and g[1] != ("1" if path == b"/channel/pause" else "0"):
+                return "pause-effect", "%s?%s answered 200 and left the channel's pause flag at %s" % (
+                    path.decode(), unhex(w[4]).decode("latin1"), g[1])
     if path.startswith(b"/channel/") and path != b"/channel/create" and tkey in eb and tkey in ea:
         c = q.get("channel", [None])[0]
         fb, fa = eb[tkey].split(":"), ea[tkey].split(":")
@@ -359,7 +372,7 @@ def report_oracle_fail(ctx, line):
         if m.group(2) == "stream" and m.group(4) and m.group(3) != "-":
             replay += "reset\nio %s %s\n" % (m.group(4), m.group(3))      # replayable: ./check C09 --replay <this file>
         elif m.group(2) == "req" and m.group(3).startswith("http"):
-            replay += "reset\n%s\n" % m.group(3)
+            replay += "reset\n" + "\n".join(x.replace("|", " ") for x in m.group(3).split("||")) + "\n"
         ctx.violation(m.group(1), m.group(5)[:400], replay)
     else:
         ctx.violation("harness-oracle", line[:400], line + "\n")
@@ -515,7 +528,7 @@ def run(ctx):
                 os.remove(os.path.join(corpus, fn))
             with open(os.path.join(corpus, "00_replay.ops"), "w") as f:
                 f.write(open(ctx.replay_in).read())
-        N = 0 if ctx.replay_in else ctx.budget(10000, 100000)
+        N = 0 if ctx.replay_in else ctx.budget(8000, 100000)
         rc, out = ctx.run_cmd([binp, "-test.run", "^TestVerifE3Proto$", "-test.count=1", "-test.timeout=3000s"],
                               timeout=3200, env={"VERIF_SEED": ctx.seed, "VERIF_N": N, "VERIF_OUT": ctx.work,
                                                  "VERIF_REPO": REPO, "VERIF_CORPUS": corpus})
